@@ -1,4 +1,6 @@
 import Driver.C04
+import Driver.C11_Labels
+import Driver.C08Q
 import Driver.C18O
 import Driver.C10L
 import Driver.C11_Ctx
@@ -52,6 +54,8 @@ partial def loop (h : IO.FS.Stream) (out : IO.FS.Stream) (f : String → String)
   loop h out f
 
 def modes : List (String × (String → String)) := [
+  ("c11lab", C11Labels.handle),
+  ("c08q", C08Q.handle),
   ("c18o", C18O.handle),
   ("c16sweep", C16.handleSweep),
   ("c10l", C10L.handle),
